@@ -925,7 +925,7 @@ fn main() {
     ck.run(
         Section::enumerate(
             "one-bucket-fill",
-            "container and installation x n = 1..=200 (and 6 larger counts up to 640): n distinct small objects whose keys all fall into one index bucket, written without a flush, then Reopen and a read of every object; and the same after an earlier flushed batch of 30 (update-log pages hold 21 entries: every page boundary and partial last page is crossed); a key written, removed and written again with 5..45 other updates of its bucket in between; 3800 objects in one bucket (sorted section above 64 KiB) followed by two unflushed writes and a reopen",
+            "container and installation x n = 1..=200 (and 6 larger counts up to 640): n distinct small objects whose keys all fall into one index bucket, written without a flush, then Reopen and a read of every object; and the same after an earlier flushed batch of 30 (update-log pages hold 21 entries: every page boundary and partial last page is crossed); a key written, removed and written again with 5..45 other updates of its bucket in between; 3800 objects in one bucket (sorted section above 64 KiB) followed by two unflushed writes and a reopen; 1259..=1262 and 2521 objects in one bucket (the update log holds 1260 records) and a reopen right behind the last one",
             move || {
                 let mut v = Vec::new();
                 for sys in [Sys::Container, Sys::Installation] {
@@ -956,6 +956,13 @@ fn main() {
                             Op::Reopen,
                         ],
                     });
+                }
+                // the write whose index record is the one that overflows the bucket's update log (60 pages
+                // x 21 = 1260 records: the 1261st is appended after a flush), closed right behind it
+                for sys in [Sys::Container, Sys::Installation] {
+                    for n in [1_259u16, 1_260, 1_261, 1_262, 2_521] {
+                        v.push(Case { sys, sweep_every_step: false, ops: vec![Op::FillBucket { bucket: 5, n, seed: seed ^ u64::from(n) }, Op::Reopen] });
+                    }
                 }
                 // more than 64 KiB of sorted index records in one bucket (3640+ entries of 18 bytes),
                 // then two more unflushed writes and a reopen
